@@ -66,7 +66,11 @@ func catalogue(w *world, check string) []kase {
 				continue
 			}
 			ctx := &faults.Ctx{Seed: w.sc.Name + s.String()}
-			if om := faults.OtherParty(w.seq, s); om != nil {
+			om := faults.OtherParty(w.seq, s)
+			if w.spec.Two {
+				om = faults.OtherPartyBefore(w.seq, s) // alternating protocol: only what the deviator has already received
+			}
+			if om != nil {
 				ctx.Other, _ = faults.Decode(om.Data)
 			}
 			for _, nd := range faults.Walk(tree) {
